@@ -14,6 +14,8 @@ ATOMS = [
     "size not between 5 and 50", "name not like 'a%'",
     # bare boolean columns and functions (the documented shorthand for `= true`)
     "is_dir", "is_file", "is_hidden", "contains('xxxxx')",
+    # date atoms: a literal coarser than a second denotes an interval, and entries lie before, inside (first second, middle, last second) and after it
+    "modified > '2024-03-10'", "modified <= '2024-03-10'", "modified = '2024-03-10'", "modified >= '2024-03-10 12'", "modified < '2024-03-10 12:00'", "modified != '2024-03-10 12:00:00'",
 ]
 BARE = ["is_dir", "is_file", "is_hidden", "contains('xxxxx')"]
 
@@ -33,6 +35,16 @@ def build_tree(ctx):
             with open(os.path.join(dp, nm), "wb") as f:
                 f.write(b"x" * sz)
         k += 5
+    # modification times around (and inside) the day 2024-03-10 and its noon hour / minute
+    import calendar
+    base = calendar.timegm((2024, 3, 10, 0, 0, 0))
+    offs = [-1, 0, 1, 43199, 43200, 43201, 43259, 43260, 46799, 46800, 86399, 86400, 200000, -90000]
+    i = 0
+    for dp, ds, fs in sorted(os.walk(root)):
+        for nm in sorted(fs):
+            tt = (base + offs[i % len(offs)]) * 1000000000 + (500000000 if i % 3 == 0 else 0)
+            os.utime(os.path.join(dp, nm), ns=(tt, tt))
+            i += 1
     return root
 
 
@@ -144,6 +156,9 @@ def run(ctx):
                   ("size between 11 and 11", "size not between 11 and 11"), ("length(name) between 2 and 5", "length(name) not between 2 and 5"),
                   ("name like 'a%'", "name not like 'a%'"), ("name like '%.txt'", "name notlike '%.txt'"), ("size = 10", "size != 10"), ("size > 10", "size <= 10"), ("size >= 50", "size < 50"),
                   ("name =~ '^[ab]'", "name !=~ '^[ab]'"), ("name = '*.txt'", "name != '*.txt'"), ("name === 'a.txt'", "name !== 'a.txt'"), ("is_dir = true", "is_dir != true"),
+                  ("modified > '2024-03-10'", "modified <= '2024-03-10'"), ("modified >= '2024-03-10'", "modified < '2024-03-10'"), ("modified = '2024-03-10'", "modified != '2024-03-10'"),
+                  ("modified > '2024-03-10 12'", "modified <= '2024-03-10 12'"), ("modified >= '2024-03-10 12:00'", "modified < '2024-03-10 12:00'"), ("modified > '2024-03-10'", "not modified > '2024-03-10'"),
+                  ("modified < '2024-03-10 12'", "not modified < '2024-03-10 12'"),
                   ("is_dir", "not is_dir"), ("is_hidden", "not is_hidden"), ("is_file", "not is_file"), ("contains('xxxxx')", "not contains('xxxxx')"),
                   ("is_dir", "is_dir = false"), ("is_hidden", "is_hidden != true"), ("not is_dir", "is_dir = true"), ("not not is_hidden", "not is_hidden")]
     for a, b, (_, ra, qa), (_, rb, qb) in [(a, b, atom_rows(a), atom_rows(b)) for a, b in comp_pairs]:
@@ -164,6 +179,10 @@ def run(ctx):
     for j, tr in enumerate(triples):
         if j % 2 == 0 and not any(a in BARE for a in tr):
             tr[rng.randrange(3)] = rng.choice([a for a in BARE if a in truth_of])
+    DATE = [a for a in ATOMS if a.startswith("modified") and a in truth_of]
+    for j, tr in enumerate(triples):
+        if j % 2 == 1 and DATE and not any(a in DATE for a in tr):
+            tr[rng.randrange(3)] = rng.choice(DATE)
     for atoms in triples:
         for size in range(1, bound + 1):
             fs = all_formulas(size, 3)
@@ -231,6 +250,6 @@ def run(ctx):
         ctx.notes.append("parser correspondence unavailable (%s)" % str(e)[:200])
     ctx.coverage.update(
         evaluations=len(jobs) + len(ATOMS) + n_corr, distinct_nontrivial=len(st["distinct"]), traces_validated_against_impl=st["agreed"],
-        rule="tree of 42 files incl. hidden ones (sizes around the literals: v-1, v, v+1; names around the patterns) realising the truth assignments of %d atoms of every operator kind (incl. between / not between / not like, boolean with and without `= true`, bare boolean function, regex, glob, function); EVERY formula shape up to %d nodes over three atoms (x several atom triples) plus random formulas to depth 5, rendered with minimal or redundant brackets in both styles and prefix `not`; the documented complements between atoms (between / not between with bounds that occur in the tree, like / not like, each comparison and its opposite) are checked directly; every formula is also parsed by the real lexer+parser and by model.Parser (identical syntax trees required); the formula's result set must equal the Boolean combination (and = intersection, or = union, not = complement) of the atoms' own result sets. non-trivial = >= 3 nodes and a proper non-empty result" % (len(ATOMS), bound),
+        rule="tree of 42 files incl. hidden ones (sizes around the literals: v-1, v, v+1; names around the patterns) realising the truth assignments of %d atoms of every operator kind (incl. between / not between / not like, date columns against literals of day / hour / minute precision with entries inside the literal's interval, boolean with and without `= true`, bare boolean function, regex, glob, function); EVERY formula shape up to %d nodes over three atoms (x several atom triples) plus random formulas to depth 5, rendered with minimal or redundant brackets in both styles and prefix `not`; the documented complements between atoms (between / not between with bounds that occur in the tree, like / not like, each comparison and its opposite) are checked directly; every formula is also parsed by the real lexer+parser and by model.Parser (identical syntax trees required); the formula's result set must equal the Boolean combination (and = intersection, or = union, not = complement) of the atoms' own result sets. non-trivial = >= 3 nodes and a proper non-empty result" % (len(ATOMS), bound),
         samples=st["samples"], distribution=dict(st["hist"]), exhaustive_up_to_size=bound)
     return ctx.finish(trusted=["atom truth values are taken from the implementation's own single-atom runs (their meaning is C02's subject)"])
